@@ -16,22 +16,22 @@ class Rec:
         self.target, self.port, self.weight, self.priority = target, port, weight, priority
 
 
-class Name:
-    """dns.name.Name stand-in: str() gives the textual name"""
+def Name(s):
+    """a real dns.name.Name (relative when the text has no trailing dot), so that every way of rendering it that dnspython offers (str, to_text,
+    to_unicode, labels) behaves as it does on a resolver's answer"""
+    import dns.name
 
-    def __init__(self, s):
-        self.s = s
-
-    def __str__(self):
-        return self.s
+    return dns.name.from_text(s, origin=None)
 
 
 def _records(c, n, dots, names="distinct"):
-    """names: 'distinct' hosts; 'same' = one host listed n times (e.g. two SRV records for one DC); 'case' = the same host spelled with different case"""
+    """names: 'distinct' hosts; 'same' = one host listed n times (e.g. two SRV records for one DC); 'case' = the same host spelled with different case;
+    'idna' = hosts with punycode (xn--) labels, which must come back as they are on the wire"""
     recs = []
     for i in range(n):
         dot = (dots >> i) & 1
-        host = {"distinct": f"dc{i}.example.com", "same": "dc0.example.com", "case": ("dc0.example.com", "DC0.example.com", "Dc0.Example.Com", "dC0.EXAMPLE.com", "dc0.example.COM")[i]}[names]
+        host = {"distinct": f"dc{i}.example.com", "same": "dc0.example.com", "case": ("dc0.example.com", "DC0.example.com", "Dc0.Example.Com", "dC0.EXAMPLE.com", "dc0.example.COM")[i],
+                "idna": f"xn--dc{i}-sna.xn--bcher-kva.example"}[names]
         recs.append(Rec(Name(host + ("." if dot else "")), c.int(f"port{i}", 0, 65535), c.int(f"w{i}", 0, 65535), c.int(f"p{i}", 0, 65535)))
     return recs
 
@@ -53,11 +53,13 @@ def _params(tier):
         for names in ("same", "case"):
             for dots in sorted({0, 0b0101010 & ((1 << n) - 1), 0b1010101 & ((1 << n) - 1)}):
                 out.append(dict(n=n, dots=dots, names=names))
+    for n in (1, 2):
+        out.append(dict(n=n, dots=0b01, names="idna"))
     return out
 
 
 @harness(P, params=_params, bounds="1..4 (quick) / 1..5 (thorough) SRV records in any order with symbolic priority, weight, port in [0,65535]; trailing-dot patterns "
-         "{none, all, alternating, inverse alternating}; hosts all distinct, or one host listed 2..3 (thorough 4) times with the same / with differing spelling (case, trailing dot)", outside="more than 5 records; other dot patterns (the dot is stripped per record before sorting)",
+         "{none, all, alternating, inverse alternating}; hosts all distinct, or one host listed 2..3 (thorough 4) times with the same / with differing spelling (case, trailing dot); 1..2 hosts with punycode labels; targets are real dns.name.Name objects", outside="more than 5 records; other dot patterns (the dot is stripped per record before sorting)",
          must_reach=("pick: lowest priority", "pick: one input record, port/weight/priority unchanged, trailing dot stripped"))
 def pick(c, n, dots, names):
     recs = _records(c, n, dots, names)
